@@ -156,9 +156,31 @@ func TestC11(t *testing.T) {
 					if rg.Chance(1, 3) {
 						runtime.Gosched()
 					}
+					// own method and own interface variable (stub space is acquired concurrently by all mockers)
+					if m < len(CMName) {
+						api(func() { b.Struct(&CM{}).Method(CMName[m]).Return(v + 3) })
+						if got := CMCall[m](5); got != v+3 {
+							addFail("C11/own-instruction-not-in-effect", fmt.Sprintf("mocker %d: after Struct.Method.Return CM.%s(5) = %d, want %d", m, CMName[m], got, v+3))
+							return
+						}
+						api(func() {
+							b.Interface(&IVars[m]).Method("Get").Apply(func(ctx *mocker.IContext, a int) int { return v + 4 + a })
+							b.Interface(&IVars[m]).Method("Name").As(func(ctx *mocker.IContext) string { return "" }).Return(fmt.Sprint("n", v))
+						})
+						if got, nm := IVars[m].Get(5), IVars[m].Name(); got != v+9 || nm != fmt.Sprint("n", v) {
+							addFail("C11/own-instruction-not-in-effect", fmt.Sprintf("mocker %d: own interface variable answers (%d,%q), want (%d,%q)", m, got, nm, v+9, fmt.Sprint("n", v)))
+							return
+						}
+					}
 					api(func() { b.Reset() })
 					if !expect("Reset", k, 5, HotOrig(id, 5)) {
 						return
+					}
+					if m < len(CMName) {
+						if got := CMCall[m](5); got != CMOrig(m, 5) || IVars[m] != nil {
+							addFail("C11/own-instruction-not-in-effect", fmt.Sprintf("mocker %d: after Reset CM.%s(5) = %d (want %d), interface variable nil=%v", m, CMName[m], got, CMOrig(m, 5), IVars[m] == nil))
+							return
+						}
 					}
 					// nobody else's targets may have been touched by this builder: spot check a neighbour of another mocker
 					o := (id + per) % len(Hot)
